@@ -387,6 +387,7 @@ def run_radar(script):
                 w = rd.wait_hb(st.get('n', HB_STALE))
                 if w == 'timeout':
                     obs['frozen_at'] = i
+                    obs['notes'].append('timeout@%d op=%s hb=%d t=%.2f' % (i, op, rd.scr.hb, time.monotonic() - t0))
                     break
                 if w == 'exited':
                     obs['died_at'] = i
@@ -399,6 +400,7 @@ def run_radar(script):
                 w = rd.wait_hb(st.get('n', HB_STALE))
                 if w == 'timeout':
                     obs['frozen_at'] = i
+                    obs['notes'].append('timeout@%d op=%s hb=%d t=%.2f' % (i, op, rd.scr.hb, time.monotonic() - t0))
                     break
                 if w == 'exited':
                     obs['died_at'] = i
@@ -409,6 +411,7 @@ def run_radar(script):
                 w = rd.wait_hb(st['n'] + HB_STALE + 2)
                 if w == 'timeout':
                     obs['frozen_at'] = i
+                    obs['notes'].append('timeout@%d op=%s hb=%d t=%.2f' % (i, op, rd.scr.hb, time.monotonic() - t0))
                     break
                 if w == 'exited':
                     obs['died_at'] = i
@@ -429,6 +432,7 @@ def run_radar(script):
                     bad = rd.wait_hb(HB_STALE)
                 if bad == 'timeout':
                     obs['frozen_at'] = i
+                    obs['notes'].append('timeout@%d op=%s hb=%d t=%.2f' % (i, op, rd.scr.hb, time.monotonic() - t0))
                     break
                 if bad == 'exited':
                     obs['died_at'] = i
